@@ -24,3 +24,16 @@ Theorem C12_classify_exact :
   forall P, C12_classify_checkb P = true <-> C12_classify_prop P.
 Proof. exact C12_classify_exact_lemma. Qed.
 Print Assumptions C12_classify_exact.
+
+(* C10 and the acceptance half of C11: the judges compare a unit with its expected form up to the order of its
+   capability and memory lists (spec/C10Exact.v); implied by the checkers props/C10.v and props/C11.v prove *)
+From PS Require Import C10Exact Exact5_c10.
+Theorem C10_check_implies_judge :
+  forall d P, C10_checkb d P = true -> C10_judgeb d P = true.
+Proof. exact C10_check_implies_judge_lemma. Qed.
+Print Assumptions C10_check_implies_judge.
+
+Theorem C11_accept_implies_judge :
+  forall d P, C11_accept_ok d P = true -> C11_accept_judgeb d P = true.
+Proof. exact C11_accept_implies_judge_lemma. Qed.
+Print Assumptions C11_accept_implies_judge.
